@@ -440,3 +440,7 @@ mod tests {
         );
     }
 }
+
+#[cfg(any(kani, rescrv_blue_verif))]
+#[path = "/verif/hk/setsum/mod.rs"]
+mod verif_harness;
